@@ -609,12 +609,14 @@ class BodyGen:
         self.env.locals = []
         self.eg = ExprGen(r, self.env)
         body, _ = self.coro_body(r.randint(1, 4), depth, False, False, in_sub=True)
-        if not body or body[0][0] == 'ret':
-            # a sub-coroutine that finishes without doing anything is not an "action": whether an await that
-            # follows it at the very start of a process still counts as the first action is not settled by the
+        def first_real(b):
+            return next((st for st in b if st[0] != 'comment'), None)
+        if first_real(body) is None or first_real(body)[0] == 'ret':
+            # a sub-coroutine that finishes without doing anything (comments do not count) is not an "action": whether an
+            # await that follows it at the very start of a process still counts as the first action is not settled by the
             # property statement, so such bodies are not generated
             body = self.simple() + body
-            if not body or body[0][0] == 'ret':
+            if first_real(body) is None or first_real(body)[0] == 'ret':
                 body = [('var', self.marker[0].src, f"({self.marker[0].src} + 1)")] + body
         ret = None
         if r.random() < 0.4:
